@@ -11,7 +11,7 @@ LEVEL = "translation_validation"
 BACKEND = "verilog"
 RULE = ("program = generated translatable RTL design (operators, constant/variable bit selects, slices, struct ports and "
         "wires with nested/list fields, sub-components, connections through slices/fields/constants, temporaries, "
-        "for-loops, if/elif/else, if-expressions, int literals, registers with reset) + input sequence; the design is "
+        "for-loops, if/elif/else, if-expressions, int literals, registers with reset, lists of components, interfaces and 1-D/2-D lists of interfaces, child input ports registered by the parent) + input sequence; a second family instantiates one class with three defaulted construct() arguments several times (positional / keyword / defaulted / set_param overrides): every instance must behave like its own PyMTL instance; the design is "
         "translated by VerilogTranslationPass; the emitted text must parse under the strict IEEE-1800 subset grammar of "
         "engine E2, have no undeclared/duplicate identifiers and exactly one driver per variable bit, and E2's two-state "
         "execution must give the same packed value on every output port after every evaluation and clock edge as the "
